@@ -33,6 +33,29 @@ let handle = function
   | ["specq2"; op; n1; d1; n2; d2] ->
      string_of_res (specq2 (nat_of_int (int_of_string op)) (z_of_hex n1) (z_of_hex d1) (z_of_hex n2) (z_of_hex d2))
   | ["specq1"; op; n1; d1] -> string_of_res (specq1 (nat_of_int (int_of_string op)) (z_of_hex n1) (z_of_hex d1))
+  | ["specc2"; op; a1; b1; a2; b2; c1; d1; c2; d2] ->
+     let z = z_of_hex in
+     string_of_res (specc2 (nat_of_int (int_of_string op)) (z a1) (z b1) (z a2) (z b2) (z c1) (z d1) (z c2) (z d2))
+  | ["spec_q"; n; d] -> string_of_res (spec_q (z_of_hex n) (z_of_hex d))
+  | ["spec_radix_q"; r; n; d] -> string_of_res (spec_radix_q (z_of_hex r) (z_of_hex n) (z_of_hex d))
+  | ["spec_exact_bits"; b] -> string_of_res (spec_exact_bits (z_of_hex b))
+  | ["spec_inexact_bits"; n; d] -> string_of_res (spec_inexact_bits (z_of_hex n) (z_of_hex d))
+  | ["model_exact_bits"; b] ->
+     (* the model of sexp_inexact_to_exact on the decoded double; fuel 1100 is the proved bound *)
+     (match inexact_to_exact (nat_of_int 1100) (nat_of_int 400) (nat_of_int 100) (nat_of_int 100) (b64_decode (z_of_hex b)) with
+      | XNum (RInt v) -> "M " ^ string_of_num v ^ " f:1"
+      | XNum (RRat (n, d)) -> "M " ^ string_of_num n ^ " " ^ string_of_num d
+      | XNum RErr -> "EXC" | XNum RFuel -> "FUEL" | XNotFinite -> "NOTFINITE" | XLoopFuel -> "FUEL")
+  | ["g_op"; op; a; b; c; d; e; f; g; h] ->
+     let xnum_of n d = if d = "f:1" then XInt (num_of n) else XRat (num_of n, num_of d) in
+     let gnum_of rn rd inn id = if inn = "f:0" then GR (xnum_of rn rd) else GC (xnum_of rn rd, xnum_of inn id) in
+     let sx = function XInt v -> string_of_num v ^ " f:1" | XRat (n, d) -> string_of_num n ^ " " ^ string_of_num d in
+     let x = gnum_of a b c d and y = gnum_of e f g h in
+     let fu = nat_of_int 600 and qf = nat_of_int 120 and mf = nat_of_int 120 in
+     (match (match op with "0" -> g_add fu qf mf x y | "1" -> g_sub fu qf mf x y | "2" -> g_mul fu qf mf x y | _ -> g_div fu qf mf x y) with
+      | GV (GR r) -> "M " ^ sx r ^ " f:0 f:1"
+      | GV (GC (re, im)) -> "M " ^ sx re ^ " " ^ sx im
+      | GErr -> "EXC" | GFuel -> "FUEL")
   | ["spec_radix"; r; z] -> string_of_res (spec_radix (z_of_hex r) (z_of_hex z))
   | ["add_digits"; a; b] -> string_of_zlist (add_digits (zlist_of_string a) (zlist_of_string b))
   | ["sub_digits"; a; b] -> string_of_zlist (sub_digits (zlist_of_string a) (zlist_of_string b))
